@@ -7,6 +7,7 @@ import ClaripyProofs.Lemmas.VSA.EvalExact
 import ClaripyProofs.Lemmas.VSA.EvalSigned
 import ClaripyProofs.Lemmas.VSA.MeetFinal
 import ClaripyProofs.Lemmas.VSA.AlignedMul
+import ClaripyProofs.Lemmas.VSA.MeetTwoPieces
 /-!
 # C22 — joins, meets, widening and queries agree with the members
 
@@ -201,6 +202,32 @@ theorem C22_meet_closed (a b r : SI) (ha : a.WF) (hb : b.WF) (hbits : a.bits = b
 example : alignedNormal (SI.new 4 3 11 4) (SI.new 4 2 4 12) ∧ (SI.new 4 3 11 4).mem 14 ∧ (SI.new 4 2 4 12).mem 4 ∧
     (∃ r, (SI.new 4 3 11 4).intersection (SI.new 4 2 4 12) = .ok r ∧ r.mem 4 ∧ ¬ r.mem 14) := by
   refine ⟨by unfold alignedNormal; decide, by decide, by decide, ⟨_, rfl, by decide, by decide⟩⟩
+
+/-- what the proof of the meet actually uses instead of alignment: **every wrapping operand splits into two pieces at the south
+pole** (it has a member after the pole).  Alignment implies it; it is void for non-wrapping operands.  The only operands left
+out are wrapping intervals whose upper bound is not a member AND that have no member after the pole (like `3[2,0]` in
+`meet_unaligned_unsound`). -/
+def splitsInTwo : SI → SI → Prop := fun a b =>
+  (a.ub < a.lb → TwoPieces a) ∧ (b.ub < b.lb → TwoPieces b) ∧ a.renorm = a ∧ b.renorm = b
+
+theorem C22_meet_two_pieces : MeetSound SI.intersection splitsInTwo := by
+  intro a b r x ha hb hbits hg hx hy h
+  obtain ⟨hA, hB, nA, nB⟩ := hg
+  exact (meet_sound_tp a.bits a b r ⟨ha, rfl⟩ ⟨hb, hbits.symm⟩ hx.1 hy.1 hA hB nA nB h).2 x hx hy
+
+/-- **`intersection` is sound on ALL non-wrapping operands**, aligned or not (constructor-normal form) -/
+theorem C22_meet_nonwrapping :
+    MeetSound SI.intersection (fun a b => a.lb ≤ a.ub ∧ b.lb ≤ b.ub ∧ a.renorm = a ∧ b.renorm = b) := by
+  intro a b r x ha hb hbits hg hx hy h
+  obtain ⟨hA, hB, nA, nB⟩ := hg
+  exact (meet_sound_nowrap a.bits a b r ⟨ha, rfl⟩ ⟨hb, hbits.symm⟩ hx.1 hy.1 hA hB nA nB h).2 x hx hy
+
+/-- non-vacuity: two UNALIGNED non-wrapping operands, `3[1,12]` = {1,4,7,10} and `4[2,13]` = {2,6,10}; common member 10 -/
+example : let a : SI := { bits := 4, stride := 3, lb := 1, ub := 12 }
+    let b : SI := { bits := 4, stride := 4, lb := 2, ub := 13 }
+    ¬ a.Aligned ∧ ¬ b.Aligned ∧ a.renorm = a ∧ b.renorm = b ∧ a.mem 10 ∧ b.mem 10 ∧
+    (∃ r, a.intersection b = .ok r ∧ r.mem 10) := by
+  refine ⟨by decide, by decide, by decide, by decide, by decide, by decide, ⟨_, rfl, by decide⟩⟩
 
 /-- the normal form is part of the guard: on the model a full circle written `1[5, 4]` (which the Python constructor
 would rewrite to `[0, 15]`) makes `_is_surrounded` answer "top" while `_minimal_common_integer` still splits it at 5, and
